@@ -1,5 +1,8 @@
 import Pendulum.Proofs.C05
 import Pendulum.Proofs.DTArithGen
+import Pendulum.Proofs.IntervalGenNew
+import Pendulum.Proofs.IntervalGenInit
+import Pendulum.Proofs.IntervalGenUnits
 /-! # C05 — an interval's length is the exact elapsed time between its endpoints
 
 Theorems over the model of `Interval.__new__` and of the paths into it (Model/Interval.lean), for every
@@ -530,5 +533,98 @@ example :
       = some (.interval (.naive 1970 1 2 0 0 0 0) .self false) := by decide +kernel
 example : lenOf (resLen ⟨.naive, 0, false⟩ ⟨.naive, 86400000000, false⟩ (.ok ⟨.naive, 86400000000, false⟩) true
     (.interval (.naive 1970 1 2 0 0 0 0) .self false)) = some (-86400000000) := by decide +kernel
+/-! ### The model is the code: regenerated definitions
+
+`Pendulum.Gen.Interval` is produced from `src/pendulum/interval.py` on every run (tools/gen_interval.py): `Interval.__new__`,
+`__init__`, the component properties, `in_*`, `range`, `__contains__`, `__neg__`, `__abs__`, `_getstate` … statement by statement,
+with the stdlib operations they call (`>`, `utcoffset()`, `x - timedelta`, `a - b`, `pendulum.instance`) as fields of a parameter
+record `Env`.  These theorems re-check, against what the code says now, that the model `Interval.new` the theorems above are
+about *is* that code: an edit to the source either keeps them provable or breaks the build.  `IntervalGen.EnvOk env` states what
+the model assumes about the stdlib (tied by the correspondence run); `IntervalGen.Rep env A v`: the endpoint record `A`
+(class, civil fields, fold, tzinfo identity) denotes the model value `v`. -/
+section Regenerated
+open Pendulum.IntervalGen
+open Pendulum.Gen.Interval (Ep Kind Cls Env Self isinst)
+
+/-- `Interval.__new__` as written in the source (type checks, the `absolute` swap decided by `start > end`, both endpoints rebuilt
+    as native values *with their own folds*, the UTC shift of both when they share the tzinfo object, `_end - _start`):
+    * two datetimes of either class, both naive or both aware: the model's `new` (same length or same exception);
+    * two dates of either class: the model's `dateNew`;
+    * exactly one datetime → ValueError; a naive and an aware datetime → TypeError -/
+theorem new_source_eq_model (env : Env) (ok : EnvOk env) (A B : Ep) (absolute : Bool) :
+    (∀ s e : V, Rep env A s → Rep env B e → isinst A.kind .datetime = true → isinst B.kind .datetime = true →
+      aware s = aware e →
+      Gen.Interval.new env A B absolute = liftE (new s e (decide (A.tz = B.tz)) absolute)) ∧
+    (∀ a b : Int, DateRep A a → DateRep B b → Gen.Interval.new env A B absolute = .ok (dateNew a b absolute)) ∧
+    (isinst A.kind .datetime ≠ isinst B.kind .datetime → Gen.Interval.new env A B absolute = .error "ValueError") ∧
+    (isinst A.kind .datetime = true → isinst B.kind .datetime = true → ¬ Compat A B →
+      Gen.Interval.new env A B absolute = .error "TypeError") :=
+  ⟨fun s e hA hB hdA hdB haw => new_eq env ok A B absolute s e hA hB hdA hdB haw,
+   fun a b hA hB => new_date_eq env ok A B absolute a b hA hB,
+   (new_raises env A B absolute).1, (new_raises env A B absolute).2⟩
+
+/-- `Interval.__init__` as written in the source, for two pendulum endpoints on one tzinfo object (or both naive): `_invert` is
+    the model's `gt`, the endpoints kept are the model's `initEnds` (swapped iff `start > end and absolute`) — the pair whose
+    calendar days `inDays` counts -/
+theorem init_ends_source_eq_model (env : Env) (ok : EnvOk env) (A B : Ep) (s e : V) (absolute : Bool)
+    (hA : Rep env A s) (hB : Rep env B e) (hpA : isinst A.kind .pDate = true) (hpB : isinst B.kind .pDate = true)
+    (htz : A.tz = B.tz) :
+    ∃ r, Gen.Interval.init env A B absolute = .ok r ∧ r.invert = gt s e true ∧ r.absolute = absolute ∧
+      Rep env r.start (initEnds s e absolute).1 ∧ Rep env r.end_ (initEnds s e absolute).2 :=
+  init_ends env ok A B s e absolute hA hB hpA hpB htz
+
+/-- `-(b - a)` and `abs(b - a)` as written in the source: `__neg__` calls the class on `(end, start, absolute)`, `__abs__` on
+    `(start, end, absolute=True)`; through `__new__` these are the model's `negSub` / `absSub` -/
+theorem neg_abs_source_eq_model (env : Env) (ok : EnvOk env) (self : Self Ep) (a b : V)
+    (hA : Rep env self.start a) (hB : Rep env self.end_ b) (hab : self.absolute = false)
+    (hdA : isinst self.start.kind .datetime = true) (hdB : isinst self.end_.kind .datetime = true) (haw : aware a = aware b) :
+    Gen.Interval.op_neg self = (self.end_, self.start, self.absolute) ∧
+    Gen.Interval.op_abs self = (self.start, self.end_, true) ∧
+    Gen.Interval.new env (Gen.Interval.op_neg self).1 (Gen.Interval.op_neg self).2.1 (Gen.Interval.op_neg self).2.2
+      = liftE (negSub b a (decide (self.end_.tz = self.start.tz))) ∧
+    Gen.Interval.new env (Gen.Interval.op_abs self).1 (Gen.Interval.op_abs self).2.1 (Gen.Interval.op_abs self).2.2
+      = liftE (absSub b a (decide (self.start.tz = self.end_.tz))) := by
+  obtain ⟨h1, h2⟩ := neg_abs_eq self
+  refine ⟨h1, h2, ?_, ?_⟩
+  · rw [h1, hab]
+    exact new_eq env ok self.end_ self.start false b a hB hA hdB hdA haw.symm
+  · rw [h2]
+    exact new_eq env ok self.start self.end_ true a b hA hB hdA hdB haw
+
+/-- `in_years/in_months/in_days/in_weeks` as written in the source: `in_days()` is `_delta.total_days`, `in_weeks()` the model's
+    `inWeeks` of it (sign · (|days| // 7)) -/
+theorem in_units_source_eq_model {α : Type} (self : Self α) :
+    Gen.Interval.in_years self = self.delta.years ∧
+    Gen.Interval.in_months self = self.delta.years * 12 + self.delta.months ∧
+    Gen.Interval.in_days self = self.delta.total_days ∧
+    Gen.Interval.in_weeks self = inWeeks (Gen.Interval.in_days self) := by
+  obtain ⟨h1, h2, h3, h4⟩ := in_units_eq self
+  exact ⟨h1, by rw [h2]; rfl, h3, h4⟩
+
+/-- the hypotheses are satisfiable: the reference parameters built from the model's own zone arithmetic satisfy `EnvOk`, and
+    under them every endpoint record denotes a model value -/
+theorem interval_env_hypotheses_satisfiable (zoneOf : Int → ZRef) (h0 : zoneOf 0 = .naive) (h1 : ∀ t, t ≠ 0 → zoneOf t ≠ .naive) :
+    EnvOk (refEnv zoneOf) ∧ ∀ A : Ep, Rep (refEnv zoneOf) A (epV zoneOf A) :=
+  ⟨refEnv_ok zoneOf, refEnv_rep zoneOf h0 h1⟩
+
+/-! non-vacuity: the generated `__new__` on the F12 pair (Paris 2013-10-27 02:30, both folds, one tzinfo object), on two tzinfo
+objects, on Date endpoints, and its three exceptions -/
+example : Gen.Interval.new (refEnv exZone) ⟨.pdt, 2013, 10, 27, 2, 30, 0, 0, false, 1⟩ ⟨.pdt, 2013, 10, 27, 2, 30, 0, 0, true, 1⟩ false
+    = .ok 3600000000 := by decide +kernel
+example : Gen.Interval.new (refEnv exZone) ⟨.pdt, 2013, 10, 27, 2, 30, 0, 0, true, 1⟩ ⟨.ndt, 2013, 10, 27, 2, 30, 0, 0, false, 1⟩ true
+    = .ok (-3600000000) := by decide +kernel
+example : Gen.Interval.new (refEnv exZone) ⟨.pdt, 2013, 10, 27, 2, 30, 0, 0, false, 1⟩ ⟨.pdt, 2013, 10, 27, 2, 30, 0, 0, true, 2⟩ true
+    = .ok 3600000000 := by decide +kernel
+example : Gen.Interval.new (refEnv exZone) ⟨.pdate, 2020, 2, 1, 0, 0, 0, 0, false, 0⟩ ⟨.ndate, 2020, 1, 1, 0, 0, 0, 0, false, 0⟩ true
+    = .ok 2678400000000 := by decide +kernel
+example : Gen.Interval.new (refEnv exZone) ⟨.pdt, 2020, 1, 1, 0, 0, 0, 0, false, 0⟩ ⟨.pdate, 2020, 1, 2, 0, 0, 0, 0, false, 0⟩ false
+    = .error "ValueError" := by decide +kernel
+example : Gen.Interval.new (refEnv exZone) ⟨.pdt, 2020, 1, 1, 0, 0, 0, 0, false, 0⟩ ⟨.ndt, 2020, 1, 2, 0, 0, 0, 0, false, 2⟩ false
+    = .error "TypeError" := by decide +kernel
+example : Gen.Interval.new (refEnv exZone) ⟨.pdt, 1, 1, 1, 0, 30, 0, 0, false, 2⟩ ⟨.pdt, 1, 1, 1, 0, 45, 0, 0, false, 2⟩ false
+    = .error "OverflowError" := by decide +kernel
+example : Gen.Interval.in_weeks (⟨(), (), false, false, ⟨0, 0, -20, 0, 0, 0, 0, -20⟩, -20, 0⟩ : Self Unit) = -2 := by decide
+
+end Regenerated
 
 end Pendulum.Props.C05
